@@ -84,7 +84,14 @@ fn c15_figures_match_recomputation() {
         let mut chain = gen_history(&mut rng, 12);
         // ties: two transactions of identical size and value that both beat every earlier one, in one block and across blocks
         let fat = |tag: u8| TxSpec::new(vec![TxIn::new([tag; 32], 0, vec![0x51; 20_000])], vec![TxOut::new(5_000_000_000_000, p2pkh_script(&[tag; 20]))]);
-        chain[7].txs.push(fat(1)); chain[7].txs.push(fat(2)); chain[9].txs.push(fat(3));
+        if salt % 2 == 0 { chain[7].txs.push(fat(1)); chain[7].txs.push(fat(2)); chain[9].txs.push(fat(3)); }
+        else {
+            // sizes on both sides of the CompactSize boundary decide the size record: script lengths 252 / 253 / 254, 253 outputs
+            for b in chain.iter_mut() { b.txs.retain(|t| t.outputs.len() < 100); }
+            let sized = |tag: u8, n: usize| TxSpec::new(vec![TxIn::new([tag; 32], 0, vec![0x51; n])], vec![TxOut::new(1, vec![0x51; 700 - n])]);
+            chain[6].txs.push(sized(4, 252)); chain[7].txs.push(sized(5, 253)); chain[8].txs.push(sized(6, 252)); chain[10].txs.push(sized(7, 254));
+            chain[11].txs.push(TxSpec::new(vec![TxIn::new([8; 32], 0, vec![])], (0..253).map(|i| TxOut::new(i, vec![])).collect()));
+        }
         // non-monotonic timestamps
         chain[4].time = chain[3].time - 500; chain[5].time = chain[3].time + 7; chain[8].time = 1;
         relink(&mut chain);
